@@ -280,7 +280,7 @@ SHAPES = ["zero", "one", "allmissing", "allempty", "normal"]
 def valid_case(draw, tier):
     tokcfg = draw(gen.tokenizer_cfg(kinds=("ws", "qgram", "delim")))
     shapes = [draw(st.sampled_from(SHAPES)), draw(st.sampled_from(SHAPES))]
-    dtype = draw(st.sampled_from(["obj", "strdtype"]))
+    dtype = draw(st.sampled_from(["obj", "strdtype", "nastring"]))
     tabs = []
     for s in shapes:
         if s == "zero":
